@@ -64,6 +64,11 @@ def universe():
     u += [{'$sr': [[0, 1], [None, 'a'], 'object']}, {'$sr': [[0, 1], [nan(30), 'a'], 'object']}, {'$sr': [[0, 1], [None, None], 'object']}, {'$sr': [[0, 1], [nan(31), nan(32)], 'object']},
           {'$frame': [[0, 1], ['a'], [[None], [1]], 'object']}, {'$frame': [[0, 1], ['a'], [[nan(33)], [1]], 'object']}, {'$sr': [[0, 1], [nan(34), nan(35)], 'float64']},
           {'$sr': [[0, 1], [None, None], 'datetime64[ns]']}, {'$sr': [[0, 1], [None, '2020-01-01'], 'datetime64[ns]']}]
+    # default integer labels with a step (what s.iloc[::2] or a filtered reset_index leaves): the labels are compared, not just where they start and how many there are
+    u += [{'$sr': [{'$range': [0, 3, 1]}, [1.0, 2.0, 3.0], 'float64']}, {'$sr': [{'$range': [0, 6, 2]}, [1.0, 2.0, 3.0], 'float64']}, {'$sr': [{'$range': [0, 9, 3]}, [1.0, 2.0, 3.0], 'float64']},
+          {'$sr': [[0, 2, 4], [1.0, 2.0, 3.0], 'float64']}, {'$sr': [{'$range': [1, 4, 1]}, [1.0, 2.0, 3.0], 'float64']}, {'$sr': [{'$range': [4, -2, -2]}, [1.0, 2.0, 3.0], 'float64']},
+          {'$frame': [{'$range': [0, 4, 2]}, ['a'], [[1.0], [2.0]], 'float64']}, {'$frame': [{'$range': [0, 2, 1]}, ['a'], [[1.0], [2.0]], 'float64']}, {'$frame': [[0, 1], {'$range': [0, 2, 1]}, [[1.0, 2.0], [3.0, 4.0]], 'float64']},
+          {'$frame': [[0, 1], {'$range': [0, 4, 2]}, [[1.0, 2.0], [3.0, 4.0]], 'float64']}]
     # labels that differ although their raw values coincide: tz-aware vs naive stamps, stamps vs their epoch-ns integers
     ns = [1577836800000000000, 1577923200000000000, 1578009600000000000]
     u += [{'$tsz': [IDX, [1.0, 2.0, 3.0], 'UTC']}, {'$tsz': [IDX, [1.0, 2.0, 3.0], 'US/Eastern']}, {'$sr': [ns, [1.0, 2.0, 3.0], 'float64']}, {'$sr': [[{'$dt': i} for i in IDX], [1.0, 2.0, 3.0], 'float64']}]
